@@ -377,9 +377,9 @@ bool Xml::Private::parseElement(Element& element)
           return false;
         continue;
       }
-      else
-        this->pos = pos;
     }
+    // rewind to the start of the text; if a comment was skipped, the text starts behind it
+    this->pos = *pos.pos == '<' ? token.pos : pos;
     String string;
     if(!parseText(string))
       return false;
